@@ -782,7 +782,10 @@ func (env *Env) evalCall(e *SExpr) Val {
 		if isUntyped(x.T) {
 			return env.coerce(x, t)
 		}
-		if env.quant > 0 {
+		if env.quant > 0 && strings.Contains(x.S, "q!") && sortOf(x.T) == "Slice" && sortOf(t) == "Str" {
+			return Val{S: env.content(x), T: t}
+		}
+		if env.quant > 0 && strings.Contains(x.S, "q!") {
 			fs, ts := sortOf(x.T), sortOf(t)
 			if fs != ts || (fs == "Slice") != (ts == "Slice") {
 				env.errf("conversion between %s and %s inside a quantifier is not supported: %s", x.T, t, e)
@@ -986,4 +989,24 @@ func (env *Env) evalTrigger(t *SExpr) string {
 		}
 	}
 	return v.S
+}
+
+// content abstracts a byte slice (or string) into its Str value. Inside a quantifier, for a slice that depends on the
+// bound variable, it is the bare application of the content function (no defining axiom: only congruence).
+func (env *Env) content(v Val) string {
+	if sortOf(v.T) == "Str" {
+		return v.S
+	}
+	if env.quant > 0 && strings.Contains(v.S, "q!") {
+		slt, ok := v.T.Underlying().(*types.Slice)
+		if !ok {
+			env.errf("content of a non-slice")
+			return emptyStr
+		}
+		hn, hs := elemHeapName(slt.Elem())
+		fn := "content!" + tkey(slt.Elem())
+		reg.declareFun(fn, []string{fmt.Sprintf("(Array Int %s)", sortOf(slt.Elem())), "Int", "Int"}, "Str")
+		return fmt.Sprintf("(%s (select %s %s) %s %s)", fn, env.heap(hn, hs), slRef(v.S), slOff(v.S), slLen(v.S))
+	}
+	return env.eng.contentOf(env.st, v)
 }
